@@ -66,6 +66,7 @@ class Profile:
     allow_empty: bool = True
     hkeys: int = 16
     tkeys: int = 4
+    force_nested: int = 0               # % of cases whose top has a nested scheduler for sure
 
     def but(self, **kw):
         return replace(self, **kw)
@@ -133,8 +134,11 @@ def _draw_sched(draw, prof, depth, under_timeout, budget, top=False):
     members = []
     edges = []
     taint = []
+    forced = top and prof.force_nested and chance(draw, prof.force_nested)
+    forced_at = draw(st.integers(0, n - 1)) if forced and n else -1
     for j in range(n):
-        if depth < prof.max_depth and budget[0] > 2 and chance(draw, prof.p_nested):
+        if depth < prof.max_depth and budget[0] > 2 and (j == forced_at
+                                                         or chance(draw, prof.p_nested)):
             member = _draw_sched(draw, prof, depth + 1, under, budget)
         else:
             member = _draw_job(draw, prof, wild)
